@@ -84,9 +84,9 @@ PROPS = {
     'C12': dict(obligations=lambda: P('SqProps.C12'),
                 slices=['alias'], monitors=['c12'],
                 pending=['deepcopy_iso (the copy has the same aliasing-aware canonical form as the original); independence of the copy (copy_reaches_only_new_objects, stored_copy_is_independent) is proved']),
-    'C13': dict(obligations=lambda: P('SqProps.C13') + P('SqProps.C13All') + TIE_FN,
+    'C13': dict(obligations=lambda: P('SqProps.C13') + P('SqProps.C13All') + P('SqProps.C13Run') + TIE_FN,
                 slices=['builtin_args'], monitors=['c13'],
-                pending=['writes_classified for the machine step (map / filter / reduce / sorted themselves write nothing: only their callbacks do); all 35 non-mutating table entries are proved']),
+                pending=['programs that DO contain mutators or compound assignments: which objects they may change (the receiver of the mutator and nothing else) — the mutator-free case is proved over whole runs (quiet_program_changes_no_host_object), all 35 non-mutating table entries individually']),
     'C14': dict(obligations=lambda: P('SqProps.C14') + T('SqTie.Consts', 'cast_dict_keys_tie'),
                 slices=['ops'], monitors=['c14'],
                 pending=['ops_refine for lists through the heap (the list object IS a mathematical list; index normalisation proved); dict ops_refine proved over all operation sequences']),
